@@ -443,4 +443,154 @@ def _replay_terminal_labels(names):
         return bad, {'files': sorted(files), 'declaration_label_drawn_in': where, 'expected_in': want, 'stderr': text[-600:]}
     return rp
 
-KERNELS = [k1, k2, k5, k6]
+# ---------------------------------------------------------------------------------------------- K3 identifier spans carried by the parsed library
+@replay_factory('id_spans')
+def _replay_id_spans(src):
+    def rp(ctx):
+        r = ctx.replay({'cmd': 'parse', 'source': src})
+        if 'panic' in r: return True, r
+        if not r.get('ok'): return None, {'note': 'source rejected'}
+        # Debug of Id prints only the spelling; spans are observable through semantic diagnostics: use an undeclared-variable diagnostic when the source has statements
+        a = ctx.replay({'cmd': 'analyze', 'sources': [src]})
+        bad = False; seen = []
+        for d in a.get('diagnostics', []):
+            text = src.encode()[d['start']:d['end']].decode('utf-8', 'replace'); seen.append((d['code'], d['start'], d['end'], text))
+            if d['code'] == 'P0015' and not re.fullmatch(r'nm\d+q', text): bad = True
+        return bad, {'diagnostics': seen[:6]}
+    return rp
+
+@kernel('K3 parser.identifier_spans')
+def k3(ctx, kr):
+    from . import C01 as K01, C10 as K10
+    import itertools, json
+    K01._CTX = ctx
+    TPL = K01._all_templates(); names = list(TPL)
+    kr.bounds = ('%d source templates with symbolic shape selectors and unique identifiers (as C01-K6): for every identifier node of the library returned by parse_program, '
+                 'span.start..span.end is exactly the occurrence of that identifier in the source and the file id is the file parsed' % len(names))
+    jobs = []
+    for n in sorted(names, key=lambda n: -len(list(itertools.product(*[range(d) for d in K10._shapes(TPL[n])])))):
+        dims = K10._shapes(TPL[n]); first = dims[0] if dims else 1
+        for v in range(first): jobs.append((n, None) if first == 1 else (n, [K10._prefix_for(first, v)]))
+    shapes = {n: {} for n in names}
+    for part in par_map(K01._k6_job, jobs):
+        shapes[part.tname].update(part.span_shapes); part.findings = []; part.validate = []; merge_part(kr, part)
+    for n in names:
+        sh = shapes[n]
+        for lab, rep, members in K10._cubes(TPL[n], sh):
+            st_, what, src, extra = sh[rep]
+            kr.findings.append(Finding('C05/K3/%s/%s' % (n, lab), '%s (%d shape%s of template %s; e.g. %r)' % (what, len(members), 's' if len(members) > 1 else '', n, src[-160:]),
+                                       {'source': src, 'wrong_spans': json.loads(extra) if extra else None}, replay=REPLAYS['id_spans'](src)))
+        oks = [c for c, r in sh.items() if r[0] == 'ok']
+        if oks and len(kr.validate) < 4 and n in ('nested_statements', 'call_arguments', 'if_statement', 'case_statement'): kr.validate.append(('id_spans', (sh[sorted(oks)[-1]][2],)))
+    P = ctx.program()
+    kr.functions = fn_paths(P, getattr(kr, '_enc', set()))[:120] + ['ironplc-parser::<TokenType as Logos>::lex (lifted)']
+    kr.exhaustive = True
+    kr.outside = ['spans of nodes other than identifiers (statements, literals, declarations); constructs not in the templates']
+
+# ---------------------------------------------------------------------------------------------- K7 labels of the duplicate-name rules point at the instances they name
+DUP_RULES = {
+    'enumeration_values_unique': dict(mod='rule_enumeration_values_unique', k=4, text='TYPE\n  clr : (nm0, nm1, nm2, nm3);\nEND_TYPE\n'),
+    'struct_element_unique_names': dict(mod='rule_decl_struct_element_unique_names', k=4, text='TYPE\n  st : STRUCT\n    nm0 : INT;\n    nm1 : INT;\n    nm2 : INT;\n    nm3 : INT;\n  END_STRUCT;\nEND_TYPE\n'),
+}
+
+def _k7_job(job):
+    rname, = job
+    import itertools
+    from . import C02 as K02, topo_common as TC
+    from mirsym import models
+    ctx = _CTX; part = Part(); spec = DUP_RULES[rname]
+    P = ctx.program()
+    lib0 = K02.resolve_concrete(ctx, spec['text'])
+    key = P.find_fn('ironplc-analyzer', spec['mod'] + '::apply')
+    pos = [(spec['text'].index('nm%d' % i), spec['text'].index('nm%d' % i) + 3) for i in range(spec['k'])]
+    alpha = ['a', 'b']
+    M = Machine(P, max_steps=50_000_000); sym = {}
+    def entry(M):
+        lib = deep_clone(lib0)
+        ids = {n: models.str_term(M, Str(n)) for n in alpha}; mapping = {}
+        for i in range(spec['k']):
+            v = M.fresh_bv('name_%d' % i, 32); M.assume(z3.Or([v == ids[n] for n in alpha])); sym[i] = (v, ids)
+            mapping['nm%d' % i] = (lambda v: (lambda orig: TC.ident_sym(v, orig)))(v)
+        return M.call_fn(key, [Ref(Cell(LC.subst_names(lib, mapping)))])
+    def on_path(M, pr):
+        part.paths += 1
+        if pr.inconclusive: part.inconc(pr.inconclusive); return
+        part.nontrivial += 1
+        if pr.panic: return                      # panics of rules are C04's business
+        labels = []
+        if pr.result.disc == 1:
+            for d in pr.result.f[0].items:
+                d = M.deref(d); prim = d.f[2]; secs = d.f[4].items
+                labels.append(((simp(prim.f[0].f[0]), simp(prim.f[0].f[1])), [(simp(x.f[0].f[0]), simp(x.f[0].f[1])) for x in secs]))
+        s = z3.Solver(); s.add(*pr.pc)
+        for names in itertools.product(alpha, repeat=spec['k']):
+            s.push()
+            for i, nm in enumerate(names):
+                v, ids = sym[i]; s.add(v == ids[nm])
+            r = s.check(); part.queries += 1
+            s.pop()
+            if r != z3.sat: continue
+            first = {}
+            for i, nm in enumerate(names): first.setdefault(nm, i)
+            src = spec['text']
+            for i, nm in enumerate(names): src = src.replace('nm%d' % i, nm + ' ' * 2, 1)       # same length: offsets stay put
+            bad = None
+            for prim, secs in labels:
+                if rname == 'struct_element_unique_names':
+                    # this rule labels the structure's name first ("Structure"), then the first and the repeated use of the element name
+                    tn = (src.index('st :'), src.index('st :') + 2)
+                    if prim != tn: bad = 'the primary label %s is not the name of the structure %s' % (prim, tn); break
+                    if len(secs) != 2: bad = '%d secondary labels instead of first use + repeated use' % len(secs); break
+                    prim, secs = secs[0], secs[1:]
+                pi = pos.index(prim) if prim in pos else None
+                if pi is None: bad = 'the label %s of the first instance covers no instance of a value' % (prim,); break
+                for sc in secs:
+                    si = pos.index(sc) if sc in pos else None
+                    if si is None or names[si] != names[pi]: bad = 'the labels %s and %s do not name the same value' % (prim, sc); break
+                    if first[names[pi]] != pi: bad = 'the label "first instance" is at instance %d of `%s`, its first instance is number %d' % (pi, names[pi], first[names[pi]]); break
+                    if si <= pi: bad = 'the label "duplicate" (instance %d) does not come after the first instance (%d)' % (si, pi); break
+                if bad: break
+            if bad:
+                part.add('C05/K7/%s/label-elsewhere' % rname, 'rule %s on values %s: %s' % (rname, list(names), bad), {'values': list(names), 'source': src, 'labels': [(list(p_), [list(x) for x in s_]) for p_, s_ in labels]},
+                         ('dup_labels', (src, rname)))
+            elif labels and len(part.validate) < 1: part.validate.append(('dup_labels', (src, rname)))
+            if len(part.samples) < 1 and labels: part.samples.append({'rule': rname, 'values': list(names), 'labels': len(labels)})
+    M.explore(entry, on_path)
+    part.queries += M.stats['smt']; part.encoded = set(M.encoded); part.models = set(M.models_used)
+    return part
+
+@replay_factory('dup_labels')
+def _replay_dup_labels(src, rname):
+    def rp(ctx):
+        r = ctx.replay({'cmd': 'analyze', 'sources': [src]})
+        if 'panic' in r: return None, r
+        data = src.encode(); bad = False; seen = []
+        words = [(m.start(), m.end(), m.group(0)) for m in re.finditer(r'\b[ab]\b', src)]
+        for d in r.get('diagnostics', []):
+            if d['code'] not in ('P0003', 'P0005'): continue
+            ptxt = data[d['start']:d['end']].decode(); secs = [(x['start'], x['end'], data[x['start']:x['end']].decode()) for x in d.get('secondary', [])]
+            seen.append((d['code'], d['start'], ptxt, secs))
+            firsts = {}
+            for a, b, w in words: firsts.setdefault(w, a)
+            pstart = d['start']
+            if d['code'] == 'P0003':
+                if ptxt != 'st' or len(secs) != 2: bad = True; continue
+                (pstart, _, ptxt), secs = secs[0], secs[1:]
+            if ptxt not in firsts or firsts[ptxt] != pstart: bad = True
+            for a, b, w in secs:
+                if w != ptxt or a <= pstart: bad = True
+        return bad, {'source': src, 'labels': seen}
+    return rp
+
+@kernel('K7 rules.duplicate_labels_point_at_instances')
+def k7(ctx, kr):
+    global _CTX
+    _CTX = ctx
+    kr.bounds = 'rules %s on a declaration with 4 value / element names symbolic over {a, b} (every pattern of repetitions): the label of the first instance is at the first instance of the repeated name, the label of the repetition at a later instance of the same name (the structure rule labels the structure name first)' % list(DUP_RULES)
+    for part in par_map(_k7_job, [(r,) for r in DUP_RULES]): merge_part(kr, part)
+    P = ctx.program()
+    kr.functions = fn_paths(P, getattr(kr, '_enc', set()))
+    kr.exhaustive = True
+    kr.outside = ['labels of the other rules; more than four names']
+
+KERNELS = [k1, k2, k3, k5, k6, k7]
